@@ -1390,9 +1390,10 @@ fn zo_config(name: &str) -> ZipOffsetBlobStoreConfig {
             let b = s.as_bytes();
             let level = (b.get(1).copied().unwrap_or(b'0') - b'0') as u8;
             let ck = (b.get(3).copied().unwrap_or(b'0') - b'0') as u8;
-            let oc = match b.get(5) { Some(b'p') => SortedUintVecConfig::performance_optimized(), Some(b'm') => SortedUintVecConfig::memory_optimized(), Some(b'x') => b::suv_config(&s[6..]), _ => SortedUintVecConfig::default() };
+            // the custom index configurations are written `c<l>k<k>x<log2>,<offset_width>,<sample_width>[,simd]` (the 'x' takes the place of the 'o')
+            let oc = if b.get(4) == Some(&b'x') { b::suv_config(&s[5..]) } else { match b.get(5) { Some(b'p') => SortedUintVecConfig::performance_optimized(), Some(b'm') => SortedUintVecConfig::memory_optimized(), Some(b'x') => b::suv_config(&s[6..]), _ => SortedUintVecConfig::default() } };
             // 'x' configurations also flip the two switches no preset but security_optimized touches
-            let plainer = b.get(5) == Some(&b'x');
+            let plainer = b.get(4) == Some(&b'x') || b.get(5) == Some(&b'x');
             ZipOffsetBlobStoreConfig { compress_level: level, checksum_level: ck, offset_config: oc, use_secure_memory: !plainer, enable_simd: !plainer }
         }
     }
@@ -1591,17 +1592,36 @@ fn run_build(cx: &mut Ctx, case: &Value, _force_coq: bool) {
                 let mut m: HashMap<RecordId, Vec<u8>> = HashMap::new();
                 for (id, d) in ids.iter().zip(recs.iter()) { m.insert(*id as RecordId, d.clone()); }
                 let mut shadow = m.clone();
+                // the same run as a Coq case (ModelFromData.v): the map in id order, the puts, a read of every id, a removal, len
+                let mut seeded: Vec<(RecordId, Vec<u8>)> = m.iter().map(|(k, v)| (*k, v.clone())).collect(); seeded.sort();
+                let seeded_coq = format!("[{}]", seeded.iter().map(|(k, v)| format!("({}, {})", k, coq_bytes(v))).collect::<Vec<_>>().join("; "));
+                let (mut cops, mut cobs): (Vec<String>, Vec<String>) = (vec![], vec![]);
                 let mut s = MemoryBlobStore::from_data(m);
                 for k in 0..case["puts"].as_u64().unwrap_or(3) {
                     let d = vec![200u8, k as u8];
                     match s.put(&d) {
-                        Ok(id) => { if shadow.contains_key(&id) { return Some(format!("put #{} returned id {} which is the id of a live record", k, id)); } shadow.insert(id, d); }
+                        Ok(id) => { cops.push(format!("MPut {}", coq_bytes(&d))); cobs.push(format!("[{}]%N", id));
+                                    if shadow.contains_key(&id) { if small { coq_term = Some(format!("XFromData {} [{}] [{}]", seeded_coq, cops.join("; "), cobs.join("; "))); } return Some(format!("put #{} returned id {} which is the id of a live record", k, id)); } shadow.insert(id, d); }
                         Err(e) => return Some(format!("put failed: {}", e)),
                     }
                 }
                 let mut all: Vec<RecordId> = shadow.keys().copied().collect(); all.sort();
-                for id in all { if let Some(x) = probe(&s, id, &shadow) { return Some(x); } }
+                for id in all.iter().copied() { if let Some(x) = probe(&s, id, &shadow) { return Some(x); } }
                 if s.len() != shadow.len() { return Some(format!("len() = {} but {} records are live", s.len(), shadow.len())); }
+                let mut probes: Vec<RecordId> = all.clone();
+                for extra in [0u32, all.last().copied().unwrap_or(0).wrapping_add(1), u32::MAX] { if !probes.contains(&extra) { probes.push(extra); } }
+                for id in probes.iter().copied() { cops.push(format!("MQuery {}", id)); cobs.push(match s.get(id) { Ok(d) => { let mut v = vec!["1".to_string(), d.len().to_string()]; v.extend(d.iter().map(|x| x.to_string())); format!("[{}]%N", v.join("; ")) } Err(_) => "[0]%N".into() }); }
+                cops.push("MLen".into()); cobs.push(format!("[{}]%N", s.len()));
+                if let Some(first) = all.first().copied() {
+                    // a seeded record can be removed like any other, and its id stays absent
+                    let ok = s.remove(first).is_ok(); shadow.remove(&first);
+                    cops.push(format!("MRemove {}", first)); cobs.push(format!("[{}]%N", ok as u8));
+                    cops.push(format!("MQuery {}", first)); cobs.push(if s.get(first).is_ok() { "[1]%N".into() } else { "[0]%N".into() });
+                    cops.push("MLen".into()); cobs.push(format!("[{}]%N", s.len()));
+                    if let Some(x) = probe(&s, first, &shadow) { return Some(format!("after remove: {}", x)); }
+                    if s.len() != shadow.len() { return Some(format!("after remove: len() = {} but {} records are live", s.len(), shadow.len())); }
+                }
+                if small && seeded.len() <= 40 { coq_term = Some(format!("XFromData {} [{}] [{}]", seeded_coq, cops.join("; "), cobs.join("; "))); }
                 None
             }
             "plain_seeded" => {
@@ -1678,7 +1698,7 @@ fn run_build(cx: &mut Ctx, case: &Value, _force_coq: bool) {
         let class = if kind == "memory_seeded" && seeded_wraps(case) { Some("memory_id_wraparound") } else if kind == "plain_seeded" && seeded_wraps(case) { Some("plain_id_wraparound") } else { None };
         cx.sum.fail(&cell, class, case.clone(), &m);
         // the model predicts the panic of new() as well
-        if let (Some(t), true) = (coq_term, kind == "plain_seeded" && class.is_some()) { cx.shards.push(t, case.clone()); }
+        if let (Some(t), true) = (coq_term, (kind == "plain_seeded" || kind == "memory_seeded") && class.is_some()) { cx.shards.push(t, case.clone()); }
     } else if let Some(t) = coq_term {
         if _force_coq || cx.shards.len() < cx.budget { cx.shards.push(if t.starts_with('X') { t } else { format!("XOld ({})", t) }, case.clone()); }
     }
@@ -2128,6 +2148,32 @@ pub fn run(args: &Args) {
             cx.sum.dist("nlt_builder_duplicate_keys");
         }
     }
+    // 3e''. the two builders with a mechanism model (ModelBatch.v, ModelNltb.v), always evaluated inside Coq: the batch builder
+    //       under batch sizes 0 / 1 / 2 / 3 / 64 / 100 with and without explicit flush_batch calls (empty records included), a
+    //       refusal of finish() reached through the batch path, and the trie store's builder with every key added three times
+    //       under all four presets through finish / finish_with_progress / sort_entries
+    for (ci, cfgname) in ["c0k0om", "c0k2od", "c0k0x4,8,16", "default"].iter().enumerate() {
+        for (bi, bsz) in [0u64, 1, 2, 3, 64, 100].iter().enumerate() {
+            let n = 5 + 3 * bi as u64 + ci as u64;
+            let recs: Vec<Value> = (0..n).map(|i| json!([if i % 4 == 1 { 0 } else { 3 }, (i * 5 + ci as u64) % 11, i + 40 * bi as u64])).collect();
+            for plan in [0u64, 2 + 4 * (bi as u64 + 7 * ci as u64)] {
+                run_case(&mut cx, &json!({"cell": format!("zipoffset_batch:{}", cfgname), "kind": "build", "recs": recs, "batch": bsz, "plan": plan}), true);
+                cx.sum.dist("modelled_batch_builder_cases");
+            }
+        }
+    }
+    for bsz in [0u64, 2, 4, 64] {
+        // 16-unit blocks with 8-bit deltas: the span of the first block exceeds 255 -> finish() refuses, also through the batch path
+        let recs: Vec<Value> = (0..7u64).map(|i| json!([3, 50 + i, i])).collect();
+        run_case(&mut cx, &json!({"cell": "zipoffset_batch:c0k0x4,8,16", "kind": "build", "recs": recs, "batch": bsz, "plan": 6 * bsz}), true);
+        cx.sum.dist("modelled_batch_builder_cases");
+    }
+    for (spec, n) in [("nlt_builder2:default", 30u64), ("nlt_builder2:perf", 45), ("nlt_builder2:sec", 60), ("nlt_builder2:mem", 64), ("nlt_builder2:mem", 27)] {
+        for plan in [8u64, 13, 24, 3] {
+            run_case(&mut cx, &json!({"cell": spec, "kind": "build", "recs_gen": [n, 7, (args.seed % 11) + n + plan], "plan": plan}), true);
+            cx.sum.dist("modelled_nlt_builder_cases");
+        }
+    }
     for (cfgname, sw, bsz) in [("c0k0x4,32,16", 16u32, 16usize), ("c0k2x4,32,16", 16, 16), ("c0k0x5,24,20", 20, 32)] {
         let extra = if cfgname.as_bytes()[3] == b'2' { 4usize } else { 0 };
         for target in [(1usize << sw) - 1, 1 << sw, (1 << sw) + 1] {
@@ -2228,7 +2274,7 @@ pub fn run(args: &Args) {
     }
     cx.sum.dist_max("coq_cases", cx.shards.len() as u64);
     for (cell, _) in cx.sum.cells.clone() {
-        let modelled = cell.strip_prefix("history/").map(|sp| xmodel_of(sp).is_some()).unwrap_or(false) || cell.starts_with("build/zipoffset:c0") || cell.starts_with("build/mixed") || cell.starts_with("build/simplezip") || cell == "build/zeroputs" || cell == "build/plain_seeded";
+        let modelled = cell.strip_prefix("history/").map(|sp| xmodel_of(sp).is_some()).unwrap_or(false) || cell.starts_with("build/zipoffset:c0") || cell.starts_with("build/zipoffset_batch:c0") || cell.starts_with("build/nlt_builder") || cell == "build/memory_seeded" || cell.starts_with("build/mixed") || cell.starts_with("build/simplezip") || cell == "build/zeroputs" || cell == "build/plain_seeded";
         if !modelled { cx.sum.cell_status(&cell, "S-only"); }
     }
     let sh = cx.shards.write(&args.out);
